@@ -239,4 +239,23 @@ func cmdWriters(args []string) {
 			}
 		}
 	}
+	for _, cd := range w.confined {
+		for _, p := range cd.Serves {
+			r := w.confinedObligations(p)
+			for _, o := range r.Obls {
+				fmt.Printf("%s %s goal=%s %s\n", p, o.Name, o.Goal, o.Detail)
+			}
+			for _, n := range r.Notes {
+				fmt.Println("  note:", n)
+			}
+		}
+	}
+	if w.cw != nil {
+		for _, f := range w.cw.addrTaken {
+			fmt.Printf("  address-taken %s\n", fnKey(f))
+		}
+		for _, r := range w.cw.roots {
+			fmt.Printf("  root %s [%s]\n", fnKey(r.fn), r.what)
+		}
+	}
 }
